@@ -120,6 +120,15 @@ def ite(st, c, a, b):
         return a
     if isinstance(a, Cursor) and isinstance(b, Cursor) and a.frame == b.frame:
         return Cursor(a.frame, z3.If(c, to_z3(a.idx), to_z3(b.idx)))
+    if isinstance(a, RowView) and isinstance(b, RowView) and a.matrix == b.matrix:
+        return RowView(a.matrix, z3.If(c, to_z3(a.r), to_z3(b.r)))
+    if isinstance(a, (Ref, RowView)) and isinstance(b, (Ref, RowView)) and st is not None:
+        va, vb = seq_view(st, a), seq_view(st, b)
+        if va is not None and vb is not None:
+            (la, ga), (lb, gb) = va, vb
+            fa = st.obj(a).fresh if isinstance(a, Ref) else True
+            fb = st.obj(b).fresh if isinstance(b, Ref) else True
+            return st.alloc(ListObj(length=z3.If(c, to_z3(la), to_z3(lb)), get=lambda j, c=c, ga=ga, gb=gb: ite(st, c, ga(j), gb(j)), fresh=fa and fb))
     if isinstance(a, tuple) and isinstance(b, tuple) and len(a) == len(b):
         return tuple(ite(st, c, x, y) for x, y in zip(a, b))
     try:
